@@ -169,6 +169,7 @@ fn case(r: &mut Rng, res: &mut CaseResult) {
     let mut desc = json!({"client_close": client_close, "small_tuning": small_tuning, "backlog_at_close": backlog_at_close && client_close, "channels": nch, "consumers": chans.iter().map(|c| c.cons.len()).collect::<Vec<_>>(), "blocked_rpcs": chans.iter().filter(|c| c.blocked_rpc).count(), "write_max": if write_max == usize::MAX { 0 } else { write_max }, "failpoint_delay_us": fp});
     let io_thread = h.peek(|st| st.io_thread);
     let expected_term: CMsg;
+    let mut socket_ends = false;
     let want_first_err: String;
     let mut own_issued: Vec<Op> = Vec::new();
 
@@ -332,9 +333,24 @@ fn case(r: &mut Rng, res: &mut CaseResult) {
                 res.inconclusive(format!("could not establish that {} bytes were queued before the close (transport stalled at {})", expected_bytes, base));
             }
         }
-        // frames still arriving after the close are the server's business; none are sent
-        h.inject(conn_close_frame(code, &text));
-        if stalled && r.bool() {
+        // a broker that is going down does not always wait for the CloseOk: in a quarter of
+        // the runs the stream ends (EOF or reset) right behind its Close. The close stays the
+        // reason; what could not be written is lost with the socket.
+        socket_ends = r.chance(1, 4);
+        if socket_ends {
+            let end = if r.bool() { InEnd::Eof } else { InEnd::Err(std::io::ErrorKind::ConnectionReset) };
+            if r.bool() {
+                h.inject_then_end(conn_close_frame(code, &text), Some(end));
+            } else {
+                h.inject(conn_close_frame(code, &text));
+                std::thread::sleep(Duration::from_micros(r.range(0, 400)));
+                h.set_end(end);
+            }
+            res.obs("socket_ending_behind_the_servers_close", 1);
+        } else {
+            h.inject(conn_close_frame(code, &text));
+        }
+        if stalled && !socket_ends && r.bool() {
             // the server's heartbeat sender does not know about the close: heartbeats may
             // still arrive while the client is flushing what it had queued
             std::thread::sleep(Duration::from_micros(r.range(0, 300)));
@@ -430,7 +446,8 @@ fn case(r: &mut Rng, res: &mut CaseResult) {
     // ---- the tail of the wire
     let bytes = h.out_bytes();
     let sp = wire::parse_client_stream(&bytes);
-    if sp.error.is_some() || sp.trailing != 0 {
+    // (a socket that ended under a stalled write leaves the frame it interrupted unfinished)
+    if sp.error.is_some() || (sp.trailing != 0 && !socket_ends) {
         res.violate("malformed_outbound_frame", format!("{:?} trailing {}", sp.error, sp.trailing));
     }
     let last = sp.frames.last();
@@ -443,6 +460,8 @@ fn case(r: &mut Rng, res: &mut CaseResult) {
         if closes.len() != 1 {
             res.violate("last_frame", format!("{} Connection.Close frames written", closes.len()));
         }
+    } else if socket_ends {
+        // (nothing can be said about what still got through before the socket ended)
     } else {
         match last.and_then(|f| f.method()) {
             Some(AMQPClass::Connection(Cn::CloseOk(_))) => {}
